@@ -407,6 +407,80 @@ fn history_family(ctx: &Ctx, cons: &Consensus, u: &Universe, dl: &[(String, Bloc
     Ok(())
 }
 
+/// Re-opens the node directory `dir` left by an interrupted freeze pass, compares the query battery
+/// with the twins, runs the next pass, extends the chain to the end and compares again.
+#[allow(clippy::too_many_arguments)]
+fn recover_and_judge(cons: &Consensus, u: &Universe, dl: &[(String, BlockView)], dir: &Path, deliver: usize, fam: &str, what: &str, label: &Value, tb_same: &BTreeMap<String, String>, tb_full: &BTreeMap<String, String>, sample: bool, report: &mut Report) -> Result<(), String> {
+    set_time(dl[deliver - 1].1.timestamp());
+    let booted = std::panic::catch_unwind(|| Node::boot(dir, &freezing_opts(cons, dir)));
+    let f = match booted {
+        Ok(Ok(f)) => f,
+        Ok(Err(e)) => {
+            report.violation(format!("{fam}/reopen-failed"), format!("re-open after {what} failed: {e}"), label.clone());
+            return Ok(());
+        }
+        Err(_) => {
+            report.violation(format!("{fam}/reopen-panicked"), format!("re-open after {what} panicked"), label.clone());
+            return Ok(());
+        }
+    };
+    f.wait_startup()?;
+    let num = freezer_number(&f);
+    let q = std::panic::catch_unwind(std::panic::AssertUnwindSafe(|| battery(f.shared.store(), u, cons, deliver)));
+    match q {
+        Ok(fb) => compare_battery(&format!("{fam}-recovered"), &fb, tb_same, u, num, report, label),
+        Err(_) => {
+            report.violation(format!("{fam}/query-panicked"), format!("a chain query panicked after {what}"), label.clone());
+            f.shutdown();
+            return Ok(());
+        }
+    }
+    // the next run continues
+    let pass = std::panic::catch_unwind(std::panic::AssertUnwindSafe(|| f.shared.verif_freeze_once()));
+    match pass {
+        Ok(Ok(())) => {}
+        Ok(Err(e)) => report.violation(format!("{fam}/next-pass-error"), format!("the freeze pass after {what} failed: {e}"), label.clone()),
+        Err(_) => report.violation(format!("{fam}/next-pass-panicked"), format!("the freeze pass after {what} panicked"), label.clone()),
+    }
+    let tipn = f.tip().number();
+    let num2 = check_policy(&f, tipn, num, report, label);
+    if num2 != expected_threshold(tipn).max(1) {
+        report.violation(format!("{fam}/next-pass-did-not-continue"), format!("after {what} and one more pass the freezer holds blocks below {num2}, expected {}", expected_threshold(tipn)), label.clone());
+    }
+    let q = std::panic::catch_unwind(std::panic::AssertUnwindSafe(|| battery(f.shared.store(), u, cons, deliver)));
+    if let Ok(fb) = q {
+        compare_battery(&format!("{fam}-after-next-pass"), &fb, tb_same, u, num2, report, label);
+    }
+    // extend the chain to the end, with passes
+    let mut ok = true;
+    for (name, b) in dl.iter().skip(deliver) {
+        set_time(b.timestamp());
+        if let Err(e) = f.process(b) {
+            report.violation(format!("{fam}/valid-block-refused-after-recovery"), format!("{name} refused after recovery: {e}"), label.clone());
+            ok = false;
+            break;
+        }
+        let _ = std::panic::catch_unwind(std::panic::AssertUnwindSafe(|| f.shared.verif_freeze_once()));
+    }
+    if ok {
+        let num3 = freezer_number(&f);
+        if let Ok(fb) = std::panic::catch_unwind(std::panic::AssertUnwindSafe(|| battery(f.shared.store(), u, cons, dl.len()))) {
+            compare_battery(&format!("{fam}-final"), &fb, tb_full, u, num3, report, label);
+        }
+    }
+    report.evaluations += 1;
+    report.traces += 1;
+    report.transitions += (dl.len() - deliver) as u64 + 2;
+    report.states.insert(fp(&(label.to_string(), num)));
+    report.outcomes.insert(fp(&(num, num2)));
+    report.nontrivial.insert(fp(&label.to_string()));
+    if sample {
+        report.sample(json!({"case": label, "freezer_number_at_reopen": num, "after_next_pass": num2}));
+    }
+    f.shutdown();
+    Ok(())
+}
+
 fn crash_family(ctx: &Ctx, cons: &Consensus, u: &Universe, dl: &[(String, BlockView)], only: Option<(usize, u64)>, report: &mut Report) -> Result<(), String> {
     let exe = std::env::current_exe().map_err(|e| e.to_string())?;
     // pass 1 happens at the delivery that makes the tip 12, pass 2 at tip 16
@@ -450,73 +524,8 @@ fn crash_family(ctx: &Ctx, cons: &Consensus, u: &Universe, dl: &[(String, BlockV
                 continue;
             }
             let label = json!({"family": "crash", "deliver": deliver, "crash_at": n});
-            set_time(dl[deliver - 1].1.timestamp());
-            let booted = std::panic::catch_unwind(|| Node::boot(&dir, &freezing_opts(cons, &dir)));
-            let f = match booted {
-                Ok(Ok(f)) => f,
-                Ok(Err(e)) => {
-                    report.violation("crash/reopen-failed", format!("re-open after a crash at point {n} of the freeze pass failed: {e}"), label);
-                    continue;
-                }
-                Err(_) => {
-                    report.violation("crash/reopen-panicked", format!("re-open after a crash at point {n} of the freeze pass panicked"), label);
-                    continue;
-                }
-            };
-            f.wait_startup()?;
-            let num = freezer_number(&f);
-            let q = std::panic::catch_unwind(std::panic::AssertUnwindSafe(|| battery(f.shared.store(), u, cons, deliver)));
-            match q {
-                Ok(fb) => compare_battery("crash-recovered", &fb, &tb_same, u, num, report, &label),
-                Err(_) => {
-                    report.violation("crash/query-panicked", format!("a chain query panicked after a crash at point {n} of the freeze pass"), label.clone());
-                    f.shutdown();
-                    continue;
-                }
-            }
-            // the next run continues
-            let pass = std::panic::catch_unwind(std::panic::AssertUnwindSafe(|| f.shared.verif_freeze_once()));
-            match pass {
-                Ok(Ok(())) => {}
-                Ok(Err(e)) => report.violation("crash/next-pass-error", format!("the freeze pass after a crash at point {n} failed: {e}"), label.clone()),
-                Err(_) => report.violation("crash/next-pass-panicked", format!("the freeze pass after a crash at point {n} panicked"), label.clone()),
-            }
-            let tipn = f.tip().number();
-            let num2 = check_policy(&f, tipn, num, report, &label);
-            if num2 != expected_threshold(tipn).max(1) {
-                report.violation("crash/next-pass-did-not-continue", format!("after a crash at point {n} and one more pass the freezer holds blocks below {num2}, expected {}", expected_threshold(tipn)), label.clone());
-            }
-            let q = std::panic::catch_unwind(std::panic::AssertUnwindSafe(|| battery(f.shared.store(), u, cons, deliver)));
-            if let Ok(fb) = q {
-                compare_battery("crash-after-next-pass", &fb, &tb_same, u, num2, report, &label);
-            }
-            // extend the chain to the end, with passes
-            let mut ok = true;
-            for (name, b) in dl.iter().skip(deliver) {
-                set_time(b.timestamp());
-                if let Err(e) = f.process(b) {
-                    report.violation("crash/valid-block-refused-after-recovery", format!("{name} refused after recovery: {e}"), label.clone());
-                    ok = false;
-                    break;
-                }
-                let _ = std::panic::catch_unwind(std::panic::AssertUnwindSafe(|| f.shared.verif_freeze_once()));
-            }
-            if ok {
-                let num3 = freezer_number(&f);
-                if let Ok(fb) = std::panic::catch_unwind(std::panic::AssertUnwindSafe(|| battery(f.shared.store(), u, cons, dl.len()))) {
-                    compare_battery("crash-final", &fb, &tb_full, u, num3, report, &label);
-                }
-            }
-            report.evaluations += 1;
-            report.traces += 1;
-            report.transitions += (dl.len() - deliver) as u64 + 2;
-            report.states.insert(fp(&(deliver, n, num)));
-            report.outcomes.insert(fp(&(num, num2)));
-            report.nontrivial.insert(fp(&("crash", deliver, n)));
-            if n == 1 || n == points {
-                report.sample(json!({"family": "crash", "deliver": deliver, "crash_at": n, "of": points, "freezer_number_at_reopen": num, "after_next_pass": num2}));
-            }
-            f.shutdown();
+            let what = format!("a crash at point {n} of the freeze pass");
+            recover_and_judge(cons, u, dl, &dir, deliver, "crash", &what, &label, &tb_same, &tb_full, n == 1 || n == points, report)?;
         }
         twin.shutdown();
         twin_same.shutdown();
